@@ -3,6 +3,9 @@
 //!   `run(ops) -> Vec<String>`                      (impl trace; one line per op line)
 use crate::util::{Rng, Stats};
 
+pub mod clock;
+pub mod clocksys;
+pub mod clocktear;
 pub mod param;
 pub mod units;
 
@@ -15,6 +18,9 @@ pub fn gen(suite: &str, rng: &mut Rng, n: usize, thorough: bool, stats: &mut Sta
 	match suite {
 		"units" => units::gen(rng, n, thorough, stats),
 		"param" => param::gen(rng, n, thorough, stats),
+		"clock" => clock::gen(rng, n, thorough, stats),
+		"clocksys" => clocksys::gen(rng, n, thorough, stats),
+		"clocktear" => clocktear::gen(rng, n, thorough, stats),
 		_ => panic!("unknown suite {}", suite),
 	}
 }
@@ -23,6 +29,9 @@ pub fn run(suite: &str, ops: &[String]) -> Vec<String> {
 	match suite {
 		"units" => units::run(ops),
 		"param" => param::run(ops),
+		"clock" => clock::run(ops),
+		"clocksys" => clocksys::run(ops),
+		"clocktear" => clocktear::run(ops),
 		_ => panic!("unknown suite {}", suite),
 	}
 }
